@@ -127,7 +127,7 @@ input as witness (never as `no-failing-input-found`), whatever op-specific judge
 p = '/verif/DESIGN.md'
 s = open(p).read()
 a = s.index("### 13.5 Seeded changes")
-b = s.index("## History of corrections")
+b = s.index("### 13.6 ") if "### 13.6 " in s else s.index("## History of corrections")
 s = s[:a] + sec + s[b:]
 open(p, 'w').write(s)
 print(n_total, n_first)
